@@ -202,6 +202,16 @@ class C09(PairCheck):
         traces, metas = PairCheck.executions(self, tier, seed)
         batch = tcpcl_agent.agent_batch(tier, seed)
         self.extra_coverage['agent_lifecycle_traces'] = len(batch[1])
+        # one real endpoint whose user terminates with a transfer awaiting its ACKs, against a scripted peer whose
+        # last write holds the final ACK *and* one more message: the endpoint must still close
+        from harness.drivers import tcpcl_adv
+        atr, ame = tcpcl_adv.executions('quick', seed)
+        benign = {'vterm_ack_ka', 'vterm_ack_reject', 'xfer_ok', 'ka'}
+        keep = [i for i in range(len(atr)) if not ame[i]['pre_ch'] and not ame[i]['pre_init']
+                and set(ame[i]['sess']) <= benign and set(ame[i]['sess']) & {'vterm_ack_ka', 'vterm_ack_reject'}]
+        traces += [atr[i] for i in keep]
+        metas += [dict(ame[i], source='scripted-peer') for i in keep]
+        self.extra_coverage['scripted_peer_traces'] = len(keep)
         return [('TcpclTrace', traces, metas), batch]
 
 
